@@ -29,7 +29,8 @@ EXPLANATION = (
     "rely on the caller's read lock equals the reference contract table (a member that lost its own rcu_lock scope is reported). MichaelList: "
     "a node is retired only after this thread's physical-unlink CAS succeeded, which is attempted only after the logical-mark CAS succeeded; a "
     "new node's next link is initialised before the publishing CAS. LazyList: link_node/unlink_node run only inside the position lock scope "
-    "and after validate() returned true, retirement happens after the locks are released and only on the success result. NOT decided: "
+    "and after validate() returned true, retirement happens after the locks are released and only on the success result; a successful validate_link implies that the locked predecessor is not logically removed (own mark test, or "
+    "every marking store redirects the removed node's link to the operation's start node). NOT decided: "
     "linearizability, absence of duplicate keys under races.")
 ASSUMPTIONS = ["clang CFG (-DNDEBUG); asserts harvested from a second parse with -UNDEBUG", "rules/rcu_contract.json is the reviewed reference of members "
                "whose callers must hold the RCU lock"]
